@@ -23,7 +23,9 @@ RULE = (
     "rebuild(as_of>=p) from snapshot+later events == snapshot-free result. (d) concurrent histories: the same classes run by "
     "2-4 worker threads interleaved at SQL-statement granularity (random / PCT, a concurrent cancel thread for the cancel "
     "classes), and CancelStage x CompleteStage / CompleteTask handler pairs under every schedule with <= 2 preemptions "
-    "(sampled); oracle (a) on the drained result. (e) long logs: a retry loop of 270-330 iterations (> 1000 events), "
+    "(sampled); oracle (a) on the drained result; and two overlapping completion decisions (a cancel racing a failing "
+    "branch: CompleteWorkflow x the failing branch's CompleteTask / CompleteStage / CompleteWorkflow at every statement "
+    "boundary). (e) long logs: a retry loop of 270-330 iterations (> 1000 events), "
     "oracles (a)-(c) at the first / last positions, around position 1000 and at 40 random positions. "
     "Non-trivial = run with >= 5 events; distinct = "
     "(outcome class, workflow status, multiset of stage statuses)."
@@ -33,7 +35,7 @@ ASSUMPTIONS = [
     "tasks ended by CancelStage / SKIPPED / suspended have no task-level event by construction: counted, not compared",
     "stages whose last status was written by a jump (force-marked) or RestartStage are excluded, as the statement excludes them",
 ]
-MIN_OBS = {"prefix_rebuilds": {"quick": 2000, "thorough": 20000}, "snapshot_rebuilds": {"quick": 2000, "thorough": 20000}, "entities_compared": {"quick": 1000, "thorough": 10000}, "interleaved_runs": {"quick": 50, "thorough": 600}, "cancel_x_completion_schedules_with_switch": {"quick": 100, "thorough": 1500}}
+MIN_OBS = {"prefix_rebuilds": {"quick": 2000, "thorough": 20000}, "snapshot_rebuilds": {"quick": 2000, "thorough": 20000}, "entities_compared": {"quick": 1000, "thorough": 10000}, "interleaved_runs": {"quick": 50, "thorough": 600}, "cancel_x_completion_schedules_with_switch": {"quick": 100, "thorough": 1500}, "overlapping_completion_decisions": {"quick": 15, "thorough": 15}}
 TIMEOUT = {"quick": 600, "thorough": 3000}
 
 CLASSES = ["success", "multitask", "terminal", "fc", "skip", "orsplit", "cancel", "loop", "suspend", "synthetic", "random", "first_of", "cancel_fail"]
@@ -82,6 +84,7 @@ def gen_cases(tier: str, seed: int) -> list[dict]:
         cases.append({"kind": "race", "i": i, "cls": CLASSES[i % len(CLASSES)], "seed": seed})
     for variant in range(3):
         cases.append({"kind": "pair", "variant": variant, "seed": seed, "sample": 80 if tier == "quick" else 1200})
+    cases.append({"kind": "pair2", "seed": seed})
     return cases
 
 
@@ -277,7 +280,120 @@ def _pair(case: dict) -> dict:
     return {"violations": uniq, "obs": dict(obs), "keys": sorted(keys)}
 
 
+def _pair_two_completions(case: dict) -> dict:
+    """A cancel racing a failing branch: x is CANCELED, y's last task has failed terminally but its CompleteTask is
+    still queued, and a CompleteWorkflow (pushed by the cancel) is being handled by W0 - while a second worker takes
+    y through CompleteTask, CompleteStage and the CompleteWorkflow of its own, at every statement boundary of W0's
+    handling.  Two completion decisions overlap; whatever row ends up in the store, the log must tell the same."""
+    import json as _json
+
+    from .. import interleave as il
+    from ..world import PAST, World
+
+    spec = {"name": "cancel_vs_failure", "confluent": False, "stages": [specs.st("x", [], [{"kind": "poll", "n": 6, "out": ["x_p"]}]), specs.st("y", [], [dict(specs.OK), {"kind": "term"}])]}
+    w = World(events=True)
+    cut = None
+    try:
+        w.submit(spec)
+        for _ in range(80):
+            rows = w.rows()
+            if [r for r in rows if r["type"] == "CompleteTask" and _json.loads(r["payload"]).get("status") == "TERMINAL"]:
+                break
+            w.deliver(w.eligible(rows)[0]["id"])
+        st = w.snapshot_state()["stages"]
+        xid, yid = st["x"]["id"], st["y"]["id"]
+        w.cancel()
+        cw = [r for r in w.rows() if r["type"] == "CancelWorkflow"]
+        if cw:
+            w.deliver(cw[0]["id"])
+        cs = [r for r in w.rows() if r["type"] == "CancelStage" and _json.loads(r["payload"]).get("stage_id") == xid]
+        if cs:
+            w.deliver(cs[0]["id"])
+        fin = [r for r in w.rows() if r["type"] == "CompleteWorkflow"]
+        if fin and w.snapshot_state()["stages"]["x"]["status"] == "CANCELED":
+            path = os.path.join(env.scratch_dir(), f"cut-{os.getpid()}-{random.randrange(1 << 40)}.db")
+            w.store._get_connection().commit()
+            w.copy_db(path)
+            cut = (path, fin[0]["id"], yid)
+    finally:
+        w.close()
+    obs: Counter = Counter()
+    keys: set = set()
+    out: list[dict] = []
+    if cut is None:
+        return {"violations": [], "obs": {"cut_point_not_reached": 1}, "keys": []}
+    db, row, yid = cut
+    FAR_ = "2999-01-01T00:00:00+00:00"
+
+    def mk(world):
+        def body() -> None:
+            c = world.queue._get_connection()
+            for _ in range(3):
+                # only y's CompleteTask / CompleteStage and the CompleteWorkflow they push are visible to this worker
+                try:
+                    c.execute("UPDATE queue_messages SET locked_until = ? WHERE locked_until IS NULL AND NOT ((json_extract(payload, '$.stage_id') = ? AND message_type IN ('CompleteTask', 'CompleteStage')) OR (message_type = 'CompleteWorkflow' AND id != ?))", (FAR_, yid, row))
+                    c.execute("UPDATE queue_messages SET deliver_at = ? WHERE locked_until IS NULL", (PAST,))
+                    c.commit()
+                    msg = world.queue.poll_one()
+                finally:
+                    try:
+                        c.execute("UPDATE queue_messages SET locked_until = NULL WHERE locked_until = ?", (FAR_,))
+                        c.commit()
+                    except Exception:
+                        c.rollback()
+                if msg is None:
+                    break
+                il.worker_body(world, msg)()
+
+        return body
+
+    try:
+        na = il.solo_length(db, row, events=True)
+        for s1 in range(0, na + 2):
+            run, info = il.run_pair(db, [row], il.Segments([("W0", s1), ("W9", 10**6), ("W0", 10**6)]), events=True, keep_world=True, extra_bodies={"W9": mk})
+            obs["evaluations"] += 1
+            w2 = info.pop("world", None)
+            if run is None or w2 is None:
+                obs["scheduler_watchdog"] += 1
+                continue
+            try:
+                obs["overlapping_completion_decisions"] += 1
+                keys.add(f"pair:completions:{s1}:{run.state['wf']}")
+                w2.wf_id = w2._exec_side("SELECT id FROM pipeline_executions LIMIT 1").fetchone()[0]
+                from stabilize.events import EventReplayer
+
+                v: list[dict] = []
+                wf = w2.store.retrieve(w2.wf_id)
+                rebuilt = EventReplayer(w2.event_store).rebuild_workflow_state(w2.wf_id)
+                obs["entities_compared"] += 2
+                r_status = rebuilt.get("status") or "NOT_STARTED"
+                if r_status != wf.status.name:
+                    v.append(viol("C12/workflow-status-differs:overlapping-completion-decisions", f"store {wf.status.name} replay {r_status}"))
+                # (x was canceled before the cut; y is completed inside the race by the regular completion step)
+                ys = next(s_ for s_ in wf.stages if s_.id == yid)
+                ry = (rebuilt["stages"].get(yid) or {}).get("status") or "NOT_STARTED"
+                if ry != ys.status.name:
+                    v.append(viol(f"C12/stage-status-differs:{ys.status.name}-vs-{ry}:overlapping-completion-decisions", f"stage y: store {ys.status.name}, replay {ry}"))
+                for x in v:
+                    x.update(preempted_after=s1, pair="CompleteWorkflow x (CompleteTask, CompleteStage, CompleteWorkflow of the failing branch)")
+                out += v
+            finally:
+                w2.close()
+    finally:
+        os.unlink(db)
+    seen = set()
+    uniq = []
+    for x in out:
+        if x["sig"] not in seen:
+            seen.add(x["sig"])
+            x["spec"] = spec["name"]
+            uniq.append(x)
+    return {"violations": uniq, "obs": dict(obs), "keys": sorted(keys)}
+
+
 def run_case(case: dict) -> dict:
+    if case.get("kind") == "pair2":
+        return _pair_two_completions(case)
     if case.get("kind") == "race":
         return _race(case)
     if case.get("kind") == "pair":
